@@ -5,6 +5,7 @@ package main
 // unsealing the published keys include the keys that sign.
 
 import (
+	"testing/synctest"
 	"encoding/json"
 	"fmt"
 	"math/rand/v2"
@@ -117,6 +118,11 @@ func init() {
 			}
 		}
 		p.call = w.prepare(r)
+		if !admin && st.Par != 0 && w.sealed {
+			// in a deployment the service port is not listening until main() has received SignerIsReady: a service
+			// request racing the unsealing connects only once the listener is up (or is refused)
+			p.call.gate = w.serviceListenerGate
+		}
 		p.intent.Op = "sprobe"
 		return p
 	}
@@ -140,13 +146,41 @@ type vfInject struct {
 	CertOK bool
 }
 
+// serviceListenerGate: the connection succeeds once the emulated main() has started the service listener; the
+// task waits at scheduler points (deterministic), the closed channel gives the happens-before edge main() gives.
+func (w *vfWorld) serviceListenerGate() bool {
+	for i := 0; i < 40; i++ {
+		select {
+		case <-w.listenerUp:
+			return true
+		default:
+		}
+		w.sched.park("gate:service-listener")
+	}
+	return false
+}
+
 func sealSetup(w *vfWorld) {
+	// main(): isReady := <-runtimeState.SignerIsReady ; then the service listener starts.  Any further value is a repeated transition.
+	w.listenerUp = make(chan struct{})
+	go func() {
+		<-w.state.SignerIsReady
+		w.readySignals.Add(1)
+		close(w.listenerUp)
+		for range w.state.SignerIsReady {
+			w.readySignals.Add(1)
+		}
+	}()
 	w.observers = append(w.observers, func(p *vfPrepared, ctx *vfReqCtx, resp *vfResp) {
 		concurrentWithInject := p.step.Par != 0 && w.groupHasRightInject
 		if in := p.intent.Inject; in != nil {
 			w.probe("inject-attempts")
 			ok := resp.Code == 200
-			should := in.Right && in.CertOK && !ctx.req.NoTLS && w.sealed
+			should := in.Right && in.CertOK && !ctx.req.NoTLS && w.sealed && !w.cfg.BadPrimary
+			if ok && w.cfg.BadPrimary {
+				w.violate("C09", "unsealed-with-rejected-key", "unsealed-with-rejected-key", "injection was answered 200 although the decrypted primary key is one the loader rejects")
+				return
+			}
 			switch {
 			case ok && !in.Right:
 				w.violate("C09", "unsealed-by-wrong-pass", "unsealed-by-wrong-pass", "injection with a wrong passphrase was answered 200")
@@ -194,16 +228,8 @@ func sealSetup(w *vfWorld) {
 // the model's unseal transition: what main() does once SignerIsReady fires
 func (w *vfWorld) unsealedNow() {
 	w.sealed = false
-	got := 0
-	for {
-		select {
-		case <-w.state.SignerIsReady:
-			got++
-			continue
-		default:
-		}
-		break
-	}
+	synctest.Wait()
+	got := int(w.readySignals.Swap(0))
 	w.readySeen += got
 	if got != 1 {
 		w.violate("C09", "double-transition", fmt.Sprintf("ready-signal-count:%d", got), fmt.Sprintf("SignerIsReady delivered %d values on unsealing", got))
@@ -267,8 +293,16 @@ func (w *vfWorld) verifyPublished() {
 	// certificates (M-issue checks them against /public/sshca and /public/x509ca)
 	ck := map[string]string{authCookieName: w.setupCookie("alice")}
 	w.model.cookies[ck[authCookieName]] = &vfCookieInfo{Subject: "alice", Proven: AuthTypeU2F, Carried: AuthTypeU2F, AuthAt: time.Now(), Exp: time.Now().Add(time.Hour), Kind: "session"}
-	for _, typ := range []string{"ssh", "x509"} {
-		key := vfKey("user_p256_2")
+	types := []string{"ssh", "x509"}
+	if w.cfg.Ed25519CA {
+		types = append(types, "ssh-ed25519") // served by the second CA: its key must be published too
+	}
+	for _, typ := range types {
+		keyName := "user_p256_2"
+		if typ == "ssh-ed25519" {
+			typ, keyName = "ssh", "user_ed25519_2"
+		}
+		key := vfKey(keyName)
 		text := key.sshPub()
 		if typ == "x509" {
 			text = key.pkixPEM()
@@ -276,7 +310,7 @@ func (w *vfWorld) verifyPublished() {
 		call := w.prepare(&vfReq{Method: "POST", Path: "/certgen/alice?type=" + typ, Cookies: ck, Multi: map[string]string{"@pubkeyfile": text}})
 		call.exec()
 		resp := call.finish()
-		in := &vfIntent{Op: "certgen", CertReq: &vfCertReq{URLUser: "alice", Type: typ, KeyName: "user_p256_2", KeyText: text, Method: "POST"}}
+		in := &vfIntent{Op: "certgen", CertReq: &vfCertReq{URLUser: "alice", Type: typ, KeyName: keyName, KeyText: text, Method: "POST"}}
 		before := len(w.res.Violations)
 		w.model.observeCertgen(call.ctx, in, resp)
 		for i := before; i < len(w.res.Violations); i++ {
@@ -304,6 +338,11 @@ func genSealPlan(r *rand.Rand, tier string) *vfPlan {
 	if chance(r, 0.25) {
 		// the operator pre-publishes some keymaster keys (a legal configuration)
 		p.Cfg.PubKeys = []string{pick(r, []string{"ca_ed25519", "ca_rsa_alt", "ca_rsa"})}
+	}
+	if chance(r, 0.12) {
+		// the sealed file decrypts, with the right passphrase, to a key the loader rejects: the server must stay sealed
+		p.Cfg.BadPrimary = true
+		p.Cfg.Ed25519CA = false
 	}
 	add := func(s vfStep) { p.Steps = append(p.Steps, s) }
 	probe := func(par int) vfStep {
@@ -347,6 +386,23 @@ func genSealPlan(r *rand.Rand, tier string) *vfPlan {
 	}
 	add(vfStep{Op: "readyz"})
 	add(vfStep{Op: "verify_published"})
+	if chance(r, 0.5) {
+		// the service port is up now: further injections race ordinary requests for real
+		g := []vfStep{{Op: "inject", A: pick(r, []string{"right", "right", "wrong"}), B: "operator", Par: 2}}
+		for k := 0; k < 1+r.IntN(3); k++ {
+			switch r.IntN(4) {
+			case 0:
+				g = append(g, vfStep{Op: "inject", A: pick(r, []string{"right", "wrong"}), B: "operator", Par: 2})
+			case 1:
+				g = append(g, vfStep{Op: "sprobe", N: int64(pick(r, []int{80, 81, 82, 83, 5, 6, 7})), A: "GET", B: "none", Par: 2})
+			default:
+				pr := probe(2)
+				g = append(g, pr)
+			}
+		}
+		p.Steps = append(p.Steps, g...)
+		add(vfStep{Op: "verify_published"})
+	}
 	if chance(r, 0.5) {
 		add(vfStep{Op: "inject", A: pick(r, []string{"right", "wrong"}), B: "operator"})
 		add(vfStep{Op: "verify_published"})
